@@ -257,7 +257,7 @@ func genDecHistory(t *rapid.T, x *decExec, o decOpts) {
 		case 0:
 			x.step(DOp{Op: "wbyte", C: genLits(t, "c", 1)[0]})
 		case 1:
-			x.step(DOp{Op: "write", Data: genLits(t, "p", genItemSize(t, "plen", cc, o))})
+			x.step(DOp{Op: "write", Data: genLits(t, "p", genItemSize(t, "plen", cc, o)), Empty: rapid.Bool().Draw(t, "emptyNotNil")})
 		case 2:
 			if hostile {
 				x.step(DOp{Op: "wmatch", M: genHostileU32(t, "hm", cc.BufferSize), O: genHostileU32(t, "ho", minInt(cc.WindowSize, len(x.all)))})
@@ -271,7 +271,7 @@ func genDecHistory(t *rapid.T, x *decExec, o decOpts) {
 			x.step(DOp{Op: "wmatch", M: m, O: off})
 		case 3:
 			seqs, lits := genBlock(t, cc, len(x.all), o, hostile)
-			x.step(DOp{Op: "wblock", Seqs: seqs, Lits: lits})
+			x.step(DOp{Op: "wblock", Seqs: seqs, Lits: lits, Empty: rapid.Bool().Draw(t, "emptyNotNil")})
 		case 4:
 			unread := len(x.all) - x.cursor
 			x.step(DOp{Op: "read", Len: genSize(t, "rlen", unread+2, 0, 1, unread, unread-1)})
